@@ -21,6 +21,7 @@ ALPHA = [
     "stel i = 0; zolang i < 3 { i += 1; a = a + i } a", "functie f(x) { x * 2 } f(a)",
     "a +", "stel c = 1; onbekend", "a = a + 10; 1 / 0", "als a > 1 { a = 0 } anders { stop }", "c",
     "stel s = \"x\"; lengte(s)", "functie g() { a }", "g()", "stel t = [a]; a",
+    "stel z = a / 0", "z", "zolang onbekend < 3 { a = a + 1 }", "als a < 100 { volgende }",
 ]
 EXTRA = ["functie d(n) { als n < 1 { antwoord 0 } 1 + d(n - 1) } d(200)", "b = a * b", "a == b", "stel d = a; stel d = d + 1; d", "{ stel a = 99 } a", "!(a < b)", "a = ja; a", "zolang nee { } a", "stel k = ) ", "1 +* 2",
          "a = a + 1; a = a + 1; ja + 1", "b", "print(\"{}\", a)", "2.5", "als a { 1 }", "functie h(n) { als n < 1 { antwoord 0 } n + h(n - 1) } h(a)"]
